@@ -80,6 +80,7 @@ let dispatch kind args =
   | "tabmem" -> run_tabmem args
   | "huff" -> run_huff args
   | "huffl" -> run_huffl args
+  | "huffc" -> (match args with _cap :: rest -> run_huff rest | [] -> "bad-args")   (* the capacity does not exist in the model *)
   | "huffsym" -> run_huffsym args
   | "hufftree" -> run_hufftree args
   | "huffspec" -> run_spec args
